@@ -186,7 +186,9 @@ class _Subst(ast.NodeTransformer):
 
 
 def _copy(n):
-    return ast.parse(norm(n), mode="eval").body
+    import copy
+
+    return copy.deepcopy(n)
 
 
 def propagate(expr: ast.AST, env: Dict[str, ast.AST]) -> ast.AST:
